@@ -63,7 +63,18 @@ pub fn real_vs_stub() -> serde_json::Value {
     })
 }
 
-pub fn assumptions(_prop: &str) -> Vec<String> {
+pub fn assumptions(prop: &str) -> Vec<String> {
+    let mut v = assumptions_common();
+    if !crate::multi::print_reader_direct() && (prop == "C15" || prop == "C19") {
+        v.push("the print reader of this tree is not of the shape (machine, text) -> prints: strings are not handed to it directly in this build (C15 part 'strings given directly to the print reader', C19 layer (c) for the print reader); it is still exercised through print statements and prompt commands".to_owned());
+    }
+    if !cfg!(driver_int_fns) && prop == "C19" {
+        v.push("the console services of this tree are not int_13(&VM, u8) / int_21(&mut VM, u8): the library-level machines of C19 (b, c) skip the services on both sides of their comparisons".to_owned());
+    }
+    v
+}
+
+fn assumptions_common() -> Vec<String> {
     vec![
         "sampling, not enumeration: a clean batch is evidence, not proof".to_owned(),
         "the guarded seams (cfg emu8086_verif) do not change behaviour: checked by comparing the guard-on and guard-off binaries on piped sessions".to_owned(),
